@@ -110,6 +110,7 @@ func cmdFn(args []string) int {
 	safety := fs.Bool("safety", true, "generate safety obligations")
 	all := fs.Bool("all", false, "run all solvers")
 	to := fs.Duration("timeout", 10*time.Second, "per-solver timeout")
+	nobatch := fs.Bool("nobatch", false, "one query per clause and path (no batching)")
 	fs.Parse(args)
 	P, err := loadProgram(*repo, filepath.Join(verifDir(), "stubs"))
 	if err != nil {
@@ -132,13 +133,15 @@ func cmdFn(args []string) int {
 		} else {
 			os.MkdirAll(dir, 0755)
 		}
-		stats := solveAll(r.Obls, SolveOpts{Dir: dir, Stage1: *to, Stage2: *to, All: *all, KeepFiles: *keep != ""})
+		stats := solveAll(r.Obls, SolveOpts{Dir: dir, Stage1: time.Second, Stage2: *to, All: *all, KeepFiles: *keep != "", NoBatch: *nobatch})
 		fmt.Printf("== %s: %d obligations\n", key, len(r.Obls))
 		for i, o := range r.Obls {
 			status := o.Result
 			okay := (o.Result == "unsat") != (o.Smoke || o.Canary)
 			mark := "ok  "
-			if !okay {
+			if !okay && o.Info {
+				mark = "dead"
+			} else if !okay {
 				mark = "FAIL"
 				rc = 1
 			}
@@ -245,7 +248,7 @@ func cmdCheck(args []string) int {
 	}
 	dir, _ := os.MkdirTemp("", "vcgo")
 	defer os.RemoveAll(dir)
-	so := SolveOpts{Dir: dir, Stage1: 4 * time.Second, Stage2: 20 * time.Second}
+	so := SolveOpts{Dir: dir, Stage1: time.Second, Stage2: 20 * time.Second}
 	if *tier == "thorough" {
 		so.All = true
 		so.Stage2 = 60 * time.Second
@@ -259,9 +262,14 @@ func cmdCheck(args []string) int {
 	var failed []*Obligation
 	var known []string
 	var stale []string
+	var deadPaths []string
 	samples := []interface{}{}
 	for _, o := range obls {
 		switch {
+		case o.Info:
+			if o.Result == "unsat" {
+				deadPaths = append(deadPaths, o.Fn+" "+o.Name+" "+o.Pos)
+			}
 		case o.Smoke:
 			nSmoke++
 			if o.Result == "unsat" {
@@ -350,6 +358,23 @@ func cmdCheck(args []string) int {
 			perKind[o.Kind]++
 		}
 	}
+	// slowest obligations and per-function solver seconds
+	type slowT struct {
+		Fn   string  `json:"fn"`
+		Name string  `json:"obligation"`
+		Secs float64 `json:"secs"`
+		Res  string  `json:"result"`
+	}
+	var slow []slowT
+	perFn := map[string]float64{}
+	for _, o := range obls {
+		slow = append(slow, slowT{o.Fn, o.Name, round3(o.Secs), o.Result})
+		perFn[o.Fn] += o.Secs
+	}
+	sort.SliceStable(slow, func(i, j int) bool { return slow[i].Secs > slow[j].Secs })
+	if len(slow) > 12 {
+		slow = slow[:12]
+	}
 	ev := Evidence{PropertyID: *prop, Tier: *tier, Seed: seed, Level: "proof", WallS: round3(time.Since(t0).Seconds()), Violations: nviol,
 		Assumptions: tb,
 		Coverage: map[string]interface{}{
@@ -364,9 +389,12 @@ func cmdCheck(args []string) int {
 			"load_s":                   round3(loadSecs),
 			"vcgen_s":                  round3(genSecs),
 			"solve_wall_s":             round3(solveSecs),
+			"slowest_obligations":      slow,
+			"solver_s_by_function":     roundMap(perFn),
 			"smoke_checks":             map[string]int{"run": nSmoke, "reachable": nSmokeOK},
 			"known_findings":           known,
 			"stale_findings":           stale,
+			"dead_return_paths":        deadPaths,
 			"undecided":                undecided,
 			"samples":                  samples,
 			"back_ends":                "race of z3 5.1.0, z3 4.8.12 and cvc5 1.0.3 per obligation (first definitive answer wins); thorough: all three run to completion and cross-checked",
